@@ -66,6 +66,7 @@ Hypothesis EO : env_ok E = true.
 Lemma unpack_unfold : forall k d md data, nth_error E d = Some md ->
   unpack E (S k) d data =
   (do st <- scan_loop (S (length data)) md (st_init d md data);
+   if max_members <? Mem.zlen (st_members st) then Err EFail else
    do slots <- alloc_slots (md_fields md) (st_bitmap st) (st_slots st);
    parse_members E (unpack E k) md (rev (st_members st)) (Msg d slots (repeat (0, VWord 0) (md_n_oneofs md)) [])).
 Proof. intros k d md data H. cbn [unpack]. rewrite H. reflexivity. Qed.
@@ -103,6 +104,11 @@ Proof.
   pose proof (env_desc_ok E EO d md Hmd) as D.
   unfold unpack_top. rewrite (unpack_unfold _ d md data Hmd), (unpack_unfold _ d md data' Hmd).
   rewrite Hs, Hs'. cbn [bind]. rewrite Hlen.
+  (* the same number of members on both sides: the "too many fields" test decides alike *)
+  assert (Hcnt : Mem.zlen (st_members st') = Mem.zlen (st_members st)).
+  { unfold Mem.zlen. rewrite <- (rev_length (st_members st')), <- (rev_length (st_members st)).
+    rewrite (reorder_length md _ _ HR). reflexivity. }
+  rewrite Hcnt. destruct (max_members <? Mem.zlen (st_members st)); [exact I|].
   assert (HN' : Mem.zlen data' < 2147483648) by (unfold Mem.zlen in *; lia).
   destruct (scan_loop_inv' E md D parse_tag_range_bytes count_packed_elements_le_len (Mem.zlen data) _ _ st ltac:(lia) Hs (init_scan_inv d md data HB))
     as ((_ & _ & _ & _ & HSl) & _).
